@@ -62,7 +62,7 @@ Definition value_ops (name : bytes) (idx : N) : list field_op := op_string nm_fn
 Definition str_what (nodename : bool) : N := if nodename then c_QUERY_FILTER_TYPE_NODENAME else c_QUERY_FILTER_TYPE_STRING.
 
 (* SaveToArchive of each class: the what-code, then the Add calls in the order the code makes them *)
-Fixpoint to_archive (f : filter) : msg :=
+Fixpoint to_archive (f : qfilter) : msg :=
   match f with
   | FWhat mn mx =>
       apply_ops (cop_i32 nm_what_min mn 0 ++ cop_i32 nm_what_max mx mn) (Msg c_QUERY_FILTER_TYPE_WHATCODE FNil)
@@ -132,7 +132,7 @@ Definition raw_of (a : msg) (name : bytes) : option bytes :=       (* FindData(n
 
 Section FromLevel.
   (* GetGlobalQueryFilterFactory()()->CreateQueryFilter(subMessage): the next nesting level *)
-  Variable inner : msg -> res filter.
+  Variable inner : msg -> res qfilter.
 
   Fixpoint kids_of (l : list msg) : res flist :=
     match l with
@@ -147,7 +147,7 @@ Section FromLevel.
     | None => Err
     end.
 
-  Definition load_num (k : nkind) (a : msg) : res filter :=
+  Definition load_num (k : nkind) (a : msg) : res qfilter :=
     let t := nk_type k in
     let tc := nt_tc t in
     bind (load_value a) (fun p =>
@@ -160,7 +160,7 @@ Section FromLevel.
             Ok (FNum k (fst p) (snd p) (get_i8 a nm_num_op 0) (get_i8 a nm_num_mop 0) v msk (find_fix a nm_num_def tc 1))
       end).
 
-  Definition load_str (nodename : bool) (a : msg) : res filter :=
+  Definition load_str (nodename : bool) (a : msg) : res qfilter :=
     let def := find_string a nm_str_def 1 in
     bind (load_value a) (fun p =>
       match find_string a nm_str_val 0 with
@@ -171,14 +171,14 @@ Section FromLevel.
                   end
       end).
 
-  Definition load_raw (a : msg) : res filter :=
+  Definition load_raw (a : msg) : res qfilter :=
     bind (load_value a) (fun p =>
       match find_int a nm_raw_op c_B_INT8_TYPE 8 with
       | None => Err
       | Some op => Ok (FRaw (fst p) (snd p) op (get_i32 a nm_raw_type c_B_ANY_TYPE) (raw_of a nm_raw_val) (raw_of a nm_raw_def))
       end).
 
-  Definition load_msg (a : msg) : res filter :=
+  Definition load_msg (a : msg) : res qfilter :=
     bind (load_value a) (fun p =>
       let defmsg := find_msg a nm_msg_defmsg 0 in
       match find_msg a nm_msg_kid 0 with
@@ -187,7 +187,7 @@ Section FromLevel.
       end).
 
   (* CreateQueryFilter(msg.what) then SetFromArchive(msg) *)
-  Definition from_level (a : msg) : res filter :=
+  Definition from_level (a : msg) : res qfilter :=
     let w := msg_what a in
     if w =? c_QUERY_FILTER_TYPE_WHATCODE then
       let mn := get_i32 a nm_what_min 0 in Ok (FWhat mn (get_i32 a nm_what_max mn))
@@ -216,16 +216,16 @@ Section FromLevel.
     else Err.                                                               (* B_UNIMPLEMENTED: unknown type code *)
 End FromLevel.
 
-Fixpoint from_fuel (fuel : nat) (a : msg) : res filter :=
+Fixpoint from_fuel (fuel : nat) (a : msg) : res qfilter :=
   match fuel with
   | O => Fuel
   | S f => from_level (from_fuel f) a
   end.
 
-Definition from_archive (a : msg) : res filter := from_fuel (depth_msg a) a.
+Definition from_archive (a : msg) : res qfilter := from_fuel (depth_msg a) a.
 
 (* nesting depth of a filter tree (a leaf has depth 1) *)
-Fixpoint fdepth (f : filter) : nat :=
+Fixpoint fdepth (f : qfilter) : nat :=
   match f with
   | FMsg _ _ (OSome k) _ => S (fdepth k)
   | FMin _ kids | FMax _ kids | FXor kids => S (fdepth_list kids)
